@@ -201,7 +201,45 @@ func SharedUtilities(c *Ctx, prop string) {
 					if _, exc := exceptions[name]; !exc {
 						bad = "stores " + core.ValueName(core.Strip(st.Val)) + ", not its argument"
 					} else if name == "WithCertificateLifetime" {
-						if _, isConst := core.Strip(st.Val).(*ssa.Const); !isConst {
+						// the argument, a constant, or a local of the constructor that only ever holds one of the two
+						okVal := false
+						if _, isConst := core.Strip(st.Val).(*ssa.Const); isConst {
+							okVal = true
+						}
+						// a local of the closure that is the argument or the default
+						if ph, isPhi := core.Strip(st.Val).(*ssa.Phi); isPhi {
+							okVal = true
+							for _, e := range flattenPhi(ph) {
+								_, isConst := e.(*ssa.Const)
+								ep := core.PathOf(e)
+								if !isConst && !(arg != nil && ep.Root == ssa.Value(arg) && len(ep.Fields) == 0) {
+									okVal = false
+								}
+							}
+						}
+						if fv, isFv := vp.Root.(*ssa.FreeVar); isFv && len(vp.Fields) == 0 {
+							for _, mc := range closuresCreating(fn, cl) {
+								for i, b := range mc.Bindings {
+									if i < len(cl.FreeVars) && cl.FreeVars[i] == fv {
+										if al, isAl := b.(*ssa.Alloc); isAl {
+											okVal = true
+											for _, ref := range *al.Referrers() {
+												if s2, isSt := ref.(*ssa.Store); isSt && s2.Addr == ssa.Value(al) {
+													sv := core.Strip(s2.Val)
+													_, isConst := sv.(*ssa.Const)
+													sp := core.PathOf(sv)
+													isParam := sp.Root == ssa.Value(fn.Params[0]) || sv == ssa.Value(fn.Params[0])
+													if !isConst && !isParam {
+														okVal = false
+													}
+												}
+											}
+										}
+									}
+								}
+							}
+						}
+						if !okVal {
 							bad = "stores " + core.ValueName(core.Strip(st.Val))
 						}
 					}
@@ -275,7 +313,33 @@ func SharedUtilities(c *Ctx, prop string) {
 	if ck := p.Func("", "ContainsKnownAlpnProto"); ck != nil && ck.Blocks != nil {
 		bad := ""
 		n := 0
-		for _, b := range ck.Blocks {
+		// the function, its closures, module helpers it calls and module functions it hands to slices.* helpers
+		fset := map[*ssa.Function]bool{ck: true}
+		work := []*ssa.Function{ck}
+		for len(work) > 0 {
+			f := work[0]
+			work = work[1:]
+			add := func(h *ssa.Function) {
+				if h != nil && h.Blocks != nil && core.InModule(h) && !fset[h] && len(fset) < 8 {
+					fset[h] = true
+					work = append(work, h)
+				}
+			}
+			for _, af := range f.AnonFuncs {
+				add(af)
+			}
+			for _, ci := range core.AllCalls(f) {
+				add(core.ModuleCallee(ci.Common()))
+				for _, a := range ci.Common().Args {
+					add(fnValue(core.Strip(a)))
+				}
+			}
+		}
+		var blocks []*ssa.BasicBlock
+		for f := range fset {
+			blocks = append(blocks, f.Blocks...)
+		}
+		for _, b := range blocks {
 			ifi, ok := b.Instrs[len(b.Instrs)-1].(*ssa.If)
 			if !ok {
 				continue
